@@ -1,13 +1,48 @@
 #!/usr/bin/env python3
 """rs2v.py -- translate the leaf arithmetic of rust-cc from Rust source text to Gallina.
 
-Usage: python3 tools/rs2v.py --repo /repo --out /verif/coq/gen
+Usage: python3 tools/rs2v.py --repo /repo --out /verif/coq/gen      (exit 0; one line per function)
 
-The translator tokenizes and parses the Rust text (hand written tokenizer + recursive descent /
-precedence climbing parser for a subset of Rust), symbolically executes the bodies of the selected
-functions and prints Gallina definitions built from the resulting decision trees.  It is
-FAIL-CLOSED: every construct it does not understand inside a function it has to translate raises
-TranslateError (exit status 2) naming file, function, line and construct.
+  src/counter_marker.rs            -> CounterMarkerGen.v  (all consts, enum Mark, every fn of impl CounterMarker)
+  src/weak/weak_counter_marker.rs  -> WeakCounterGen.v    (all consts, every fn of impl WeakCounterMarker)
+  src/config.rs                    -> ConfigGen.v         (DEFAULT_BYTES_THRESHOLD, Config::new, should_collect, adjust)
+  src/state.rs                     -> StateGen.v          (State::new, is_tracing, record_(de)allocation, increment_executions_count)
+  src/cc.rs                        -> ForwardGen.v        (PartialEq/Ord/PartialOrd/Hash/Debug/Display/Default/AsRef/Borrow for Cc<T>)
+
+The translator tokenizes the whole file (comments, strings, chars/lifetimes, numeric literals), splits
+it into items, parses the selected items with a recursive descent / precedence climbing parser and
+symbolically executes the function bodies: the result of a body is a decision tree (if / match on
+Option / loop call) whose leaves carry the final value of every mutable place, the returned value,
+and the debug assertions / overflow side conditions met on that path.  Gallina is printed from that
+tree, so the output depends only on the semantics of the accepted subset: comments, whitespace,
+attributes, order of functions, names of locals and `utils::cold()` calls do not change it.
+
+FAIL-CLOSED: anything outside the subset inside a translated item raises TranslateError (exit 2) with
+file, function, line and construct.  Accepted subset:
+  items       const NAME: uN = expr;  struct with named fields (Cell<uN>/Cell<bool>/uN/f64/bool/
+              Option<NonZeroUsize>/PhantomData);  #[repr(uN)] enum with explicit discriminants;
+              impl Type { fn .. };  impl Trait for Cc<T> { fn .. };  #[cfg(..)] with feature = "..",
+              all/any/not, test, rust_cc_verif (every other item kind is skipped, never translated)
+  statements  let x = e;  let x: T = e;  let Some(x) = e else { diverging block };  e;  tail e;
+              #[cfg(..)] on statements and block expressions
+  control     if / else if / else, if let Some(x) = e { } else { }, loop, while, break, return [e],
+              block expressions; loops may not nest, may not contain return / debug_assert / overflow
+              checked arithmetic, and must assign at least one field
+  expressions integer literals (dec/hex/bin/oct, suffixes, _), bool literals, the float literal 0.0
+              as comparand, named constants, uN::BITS, uN::MAX, Enum::Variant, locals, parameters;
+              ! (bool and integer), + - * & | ^ << >>, == != < <= > >=, && || (short circuit),
+              `as` between integers / enum->integer / usize->f64; float: *, <=, >=, == 0.0 only;
+              self.f.get() / self.f.set(e) on Cell fields, cell.get() / cell.set(e) on a &Cell<uN>
+              parameter, self.f / self.f = e on plain fields (&mut self), self.method(..) of the
+              same impl (non mutating), Self::f(&self.cell, ..) for functions taking &Cell<uN>,
+              x.checked_shl(n), nz.get() on NonZeroUsize, Some(e) / None, Ok(()) / Err(UnitStruct),
+              struct literals with Cell::new(e), debug_assert!/debug_assert_eq!/debug_assert_ne!,
+              utils::cold(); the accessors state.allocated_bytes(), possible_cycles.size(),
+              layout.size() are bound to parameters by the tables CONFIG_SPEC / STATE_SPEC
+  forwarding  *e, &e on &Cc<T> / Cc<T> / &T / T with Deref, == < <= > >= on T, .cmp/.partial_cmp/.eq/
+              .lt/.le/.gt/.ge/.hash on T, Trait::method(&T, ..) calls, Debug::fmt / Display::fmt,
+              Cc::new(e), <T as Default>::default(), T::default(), !, &&, ||, deref coercion of the
+              returned `self`
 """
 import sys, os, re, argparse
 
@@ -1968,13 +2003,28 @@ class ModuleTranslator:
 # ------------------------------------------------------------------------------------------------
 # Forwarding trait impls of cc.rs
 # ------------------------------------------------------------------------------------------------
-FWD_HEADER_VARS = """Variables (T : Type) (Cc : Type) (deref : Cc -> T) (cc_new : T -> Cc).
-Variables (T_eq : T -> T -> bool) (T_cmp : T -> T -> comparison)
-          (T_partial_cmp : T -> T -> option comparison) (T_lt T_le T_gt T_ge : T -> T -> bool).
-Variables (H : Type) (T_hash : T -> H -> H).
-Variables (Fm : Type) (R : Type) (T_debug_fmt T_display_fmt : T -> Fm -> R).
-Variable (T_default : T).
+FWD_HEADER_VARS = """Variables (T Cc H Fm R : Type).
+(* T's own trait methods, bundled in ONE record so that every generated definition takes the whole
+   bundle and names the operation it forwards to by projection: [cc_lt] forwarding to [T_le] is a
+   different term from [cc_lt] forwarding to [T_lt] (with separate Section variables the two would
+   only differ by the *name* of an abstracted argument, which is lost when the Section is closed). *)
+Record T_ops : Type := {
+  T_eq : T -> T -> bool;                          (* PartialEq::eq *)
+  T_cmp : T -> T -> comparison;                   (* Ord::cmp *)
+  T_partial_cmp : T -> T -> option comparison;    (* PartialOrd::partial_cmp *)
+  T_lt : T -> T -> bool; T_le : T -> T -> bool;   (* PartialOrd::lt / le *)
+  T_gt : T -> T -> bool; T_ge : T -> T -> bool;   (* PartialOrd::gt / ge *)
+  T_hash : T -> H -> H;                           (* Hash::hash, the hasher state is threaded *)
+  T_debug_fmt : T -> Fm -> R;                     (* Debug::fmt *)
+  T_display_fmt : T -> Fm -> R;                   (* Display::fmt *)
+  T_default : T                                   (* Default::default *)
+}.
+Variables (deref : Cc -> T) (cc_new : T -> Cc) (ops : T_ops).
 """
+
+def top(name, *args):
+    """Application of one of T's operations (a projection of the bundle [ops])."""
+    return app(name, ('id', 'ops'), *args)
 
 # trait -> {fn name -> (generated name, expected parameter shape, return kind)}
 FWD_REQUIRED = [
@@ -2105,7 +2155,7 @@ class ForwardTranslator:
             fail('unsupported body for Hash::hash', line)
         a = e.args[-1]
         if not (a.kind == 'Path' and a.segs == [self.hasher]): fail('the hasher must be passed through unchanged', line)
-        return app('T_hash', recv, ('id', 'st'))
+        return top('T_hash', recv, ('id', 'st'))
 
     def ev(self, e, env):
         k = e.kind; line = e.line
@@ -2139,7 +2189,7 @@ class ForwardTranslator:
                 return ('infix', e.op, a, b), 'bool'
             a, ta = self.ev(e.l, env); b, tb = self.ev(e.r, env)
             if e.op in T_BINOPS and ta == tb and ta in ('T', 'TRef'):
-                return app(T_BINOPS[e.op], a, b), 'bool'
+                return top(T_BINOPS[e.op], a, b), 'bool'
             if ta == tb == 'Cc' or ta == tb == 'CcRef':
                 fail('operator `%s` applied to Cc<T> operands calls the Cc impl itself (infinite recursion)' % e.op, line)
             fail('unsupported operator `%s` on operands of type %s, %s' % (e.op, ta, tb), line)
@@ -2150,14 +2200,14 @@ class ForwardTranslator:
                     fail('method `.%s()` on a receiver of type %s resolves to the Cc impl itself (infinite recursion)' % (e.name, ty), line)
                 a = self.as_tref(self.ev(e.args[0], env), line, 'argument of .%s()' % e.name)
                 op, rk = T_METHODS[e.name]
-                return app(op, t, a), rk
+                return top(op, t, a), rk
             fail('unsupported method call `.%s()`' % e.name, line)
         if k == 'Call' and e.f.kind == 'Path':
             f, fty = (None, None)
             segs = e.f.segs
             if e.f.qself or segs == ['T', 'default']:
                 f, fty = self.ev(e.f, env)
-                if fty == 'fn0' and not e.args: return ('id', f[1]), 'T'
+                if fty == 'fn0' and not e.args: return top(f[1]), 'T'
                 fail('unsupported call', line)
             if segs in (['Cc', 'new'], ['Self', 'new']) and len(e.args) == 1:
                 t, ty = self.ev(e.args[0], env)
@@ -2167,12 +2217,12 @@ class ForwardTranslator:
                 a = self.as_tref(self.ev(e.args[0], env), line, 'first argument of %s' % '::'.join(segs))
                 b = self.as_tref(self.ev(e.args[1], env), line, 'second argument of %s' % '::'.join(segs))
                 op, rk = T_METHODS[segs[1]]
-                return app(op, a, b), rk
+                return top(op, a, b), rk
             if segs in (['Debug', 'fmt'], ['Display', 'fmt']) and len(e.args) == 2:
                 a = self.as_tref(self.ev(e.args[0], env), line, 'first argument of %s' % '::'.join(segs))
                 ft, fty = self.ev(e.args[1], env)
                 if fty != 'FmtRef': fail('the formatter must be passed through unchanged', line)
-                return app('T_debug_fmt' if segs[0] == 'Debug' else 'T_display_fmt', a, ft), 'R'
+                return top('T_debug_fmt' if segs[0] == 'Debug' else 'T_display_fmt', a, ft), 'R'
             fail('unsupported call `%s(..)`' % '::'.join(segs), line)
         fail('unsupported construct: %s expression' % k, line)
 
@@ -2217,7 +2267,14 @@ def hint_block(db, names):
 def write_file(outdir, name, src, chunks):
     path = os.path.join(outdir, name)
     text = HEADER % {'src': src} + '\n' + '\n'.join(chunks)
-    with open(path, 'w') as f: f.write(text)
+    # the file is regenerated on every run; it is only *rewritten* when its content changed, so that
+    # make does not rebuild the proofs when the translation is unchanged
+    try:
+        with open(path) as f: same = (f.read() == text)
+    except OSError:
+        same = False
+    if not same:
+        with open(path, 'w') as f: f.write(text)
     return path
 
 def gen_counter_marker(repo, outdir):
